@@ -848,6 +848,10 @@ func (rt *runtime) toValue(value interface{}) Value {
 			typ := val.Type()
 
 			return objectValue(rt.newNativeFunction(name, file, line, func(c FunctionCall) Value {
+				// The function object may have been cloned into another runtime
+				// (Copy): convert arguments and results for the runtime that is
+				// making the call, not for the one the function was created in.
+				rt := c.runtime
 				if val.IsNil() {
 					panic(rt.panicTypeError("call of nil Go function (%s)", typ))
 				}
